@@ -115,8 +115,8 @@ def eval_project(spec):
 def campaigns(tier):
     q = tier == "quick"
     return [
-        Campaign("trees", "hyp", evaluate=eval_project, strategy=lambda: gen.project_specs(PF), n=1600 if q else 32000, floor_nontrivial=0.2,
+        Campaign("trees", "hyp", evaluate=eval_project, strategy=lambda: gen.project_specs(PF), n=4000 if q else 40000, floor_nontrivial=0.2,
                  describe="deep trees, unschedulable leaves, dated containers, containers with work attributes, groups"),
-        Campaign("trees_subslot", "hyp", evaluate=eval_project, strategy=lambda: gen.project_specs(PF_SUB), n=400 if q else 8000,
+        Campaign("trees_subslot", "hyp", evaluate=eval_project, strategy=lambda: gen.project_specs(PF_SUB), n=1000 if q else 10000,
                  describe="the same with sub-slot efforts"),
     ]
